@@ -272,3 +272,44 @@ Theorem C01_hyrax_list_complete :
       (map (fun sr => vdot (Hyrax.row_mul (hs_mat (fst sr)) keylen (fst (h_lr point))) (snd (h_lr point))) srs) pfs chal = Ok (true, ch').
 Proof. exact @h_list_complete. Qed.
 Print Assumptions C01_hyrax_list_complete.
+
+(* the trait's default batch_open / batch_check, for ANY scheme whose own open / check are complete on one point and leave
+   the shared transcript in the same state: the proofs of batch_open are accepted by batch_check for the true evaluations,
+   and the verifier ends in the prover's transcript state *)
+From PC Require Import Base.OrdMap Schemes.LC Schemes.DefaultBatch Proofs.DefaultBatchComplete.
+Theorem C01_default_batch_complete :
+  forall (FO : FieldOps) (Comm Item Proof St : Type)
+         (check : list Comm -> point -> list F -> Proof -> St -> res (bool * St))
+         (open : list Item -> point -> St -> res (Proof * St))
+         (R : Item -> Comm -> Prop) (value : Item -> point -> F),
+    (forall items cs pt st pf st', Forall2 R items cs -> open items pt st = Ok (pf, st') ->
+                                  check cs pt (map (fun it => value it pt) items) pf st = Ok (true, st')) ->
+    forall items cs qs ev st pfs st',
+      maps_agree Comm Item R (label_map items) (label_map cs) ->
+      (forall pl pt labels, In (pl, (pt, labels)) (groups qs) -> evals_true Item value (label_map items) ev pt labels) ->
+      default_batch_open Item Proof St open items qs st = Ok (pfs, st') ->
+      default_batch_check Comm Proof St check cs qs ev pfs st = Ok (true, st').
+Proof. exact @default_batch_complete. Qed.
+Print Assumptions C01_default_batch_complete.
+
+(* linear codes at the trait level (Ligero univariate / multilinear, Brakedown: any encoder satisfying the column relation, any
+   tensor function): open and check over a list of polynomials on the shared transcript (one field squeeze and t byte squeezes
+   per polynomial), and the default batch functions instantiated with them *)
+From PC Require Import Schemes.LinCodeList Proofs.LinCodeListFacts.
+Theorem C01_lincode_list_complete :
+  forall (FO : FieldOps) (FL : FieldLaws FO) tensor wf items cs pt tape pfs rest,
+    Forall2 R_lc items cs ->
+    lc_open_list tensor wf items pt tape = Ok (pfs, rest) ->
+    lc_check_list tensor wf cs pt (map (lc_value tensor pt) items) pfs tape = Ok (true, rest).
+Proof. exact @lc_list_complete. Qed.
+Print Assumptions C01_lincode_list_complete.
+
+Theorem C01_lincode_batch_complete :
+  forall (FO : FieldOps) (FL : FieldLaws FO) tensor wf items cs qs ev tape pfs rest,
+    maps_agree LCm (LCm * list (list F)) R_lc (label_map items) (label_map cs) ->
+    (forall pl pt labels, In (pl, (pt, labels)) (groups qs) ->
+       evals_true (LCm * list (list F)) (fun it pt => lc_value tensor pt it) (label_map items) ev pt labels) ->
+    default_batch_open (LCm * list (list F)) (list LProof) (list sq_ev) (lc_open_list tensor wf) items qs tape = Ok (pfs, rest) ->
+    default_batch_check LCm (list LProof) (list sq_ev) (lc_check_list tensor wf) cs qs ev pfs tape = Ok (true, rest).
+Proof. exact @lc_batch_complete. Qed.
+Print Assumptions C01_lincode_batch_complete.
